@@ -400,4 +400,298 @@ theorem cond_shape (hg : GlobRel g rg) (hn : GNames g) (c : IfCond) (lb le ln : 
 
 end leaves
 
+/-! ### What the helpers of the control constructs append to the root stack -/
+
+theorem ctx_push (i : Instr) (s : St) : (s.push i).root.context = s.root.context ++ [i] := rfl
+
+theorem ctx_pushVia (k : Nat) (i : Instr) (s : St) : (s.pushVia k i).root.context = s.root.context ++ [i] := by
+  unfold St.pushVia St.push St.mapFrames St.mapCur
+  cases s.inner <;> rfl
+
+theorem ctx_leave (s : St) : s.leave.2.root.context = s.root.context := (root_leave_fields s).1
+
+theorem ctx_ifLabels (le : Option Name) (s : St) : (ifLabels le s).2.2.2.root.context = s.root.context := by
+  unfold ifLabels
+  dsimp only
+  cases le <;> rfl
+
+theorem ctx_ifAfterBody (isElse r : Bool) (lElse lEnd : Name) (s : St) :
+    (ifAfterBody isElse r lElse lEnd s).2.root.context =
+      s.root.context ++ ((if r then [] else [Instr.jumpTo lEnd]) ++ (if isElse then [Instr.setLabel lElse] else [])) := by
+  unfold ifAfterBody
+  dsimp only
+  rw [ctx_leave]
+  cases r <;> cases isElse <;> simp [ctx_push]
+
+theorem ctx_ifAfterElse (k : Nat) (r : Bool) (lEnd : Name) (s : St) :
+    (ifAfterElse k r lEnd s).root.context = s.root.context ++ (if r then [] else [Instr.jumpTo lEnd]) := by
+  unfold ifAfterElse
+  dsimp only
+  cases r
+  · simp only [Bool.false_eq_true, if_false]; rw [ctx_pushVia, ctx_leave]
+  · simp only [if_true]; rw [ctx_leave]; simp
+
+theorem ctx_ifEpilogue (k : Nat) (le : Option Name) (lEnd : Name) (s : St) :
+    (ifEpilogue k le lEnd s).root.context = s.root.context ++ (if le.isSome then [] else [Instr.setLabel lEnd]) := by
+  unfold ifEpilogue
+  cases le
+  · simp only [Option.isSome_none, Bool.false_eq_true, if_false]; rw [ctx_pushVia]
+  · simp
+
+theorem ctx_loopPrologue (s : St) :
+    (loopPrologue s).2.2.root.context = s.root.context ++ [Instr.jumpTo (loopPrologue s).1, Instr.setLabel (loopPrologue s).1] := by
+  unfold loopPrologue
+  dsimp only
+  rw [ctx_push, ctx_push]
+  simp [St.probeLabel, St.enter, St.mapFrames]
+
+theorem ctx_loopEpilogue (r : Bool) (lb le : Name) (s : St) :
+    (loopEpilogue r lb le s).root.context = s.root.context ++ (if r then [] else [Instr.jumpTo lb, Instr.setLabel le]) := by
+  unfold loopEpilogue
+  dsimp only
+  rw [ctx_leave]
+  cases r <;> simp [ctx_push]
+
+/-- an error-free `forbidden` means that no terminator has been seen -/
+theorem forbidden_flags (rc bc cc : Bool) (s : St) (h : (forbidden rc bc cc s).errors = s.errors) :
+    rc = false ∧ bc = false ∧ cc = false := by
+  cases rc <;> cases bc <;> cases cc <;> simp [forbidden, St.addErr] at h ⊢
+
+theorem endsRet_append (a b : List Flow) (h : endsRet b = true) : endsRet (a ++ b) = true := by
+  induction a with
+  | nil => exact h
+  | cons x xs ih =>
+    cases hb : xs ++ b with
+    | nil => rw [hb] at ih; simp [endsRet] at ih
+    | cons y ys =>
+      show endsRet (x :: (xs ++ b)) = true
+      rw [hb]
+      rw [hb] at ih
+      cases x <;> exact ih
+
+theorem endsRet_lowerRet (e : Expr) (n : Nat) : endsRet (lowerRet e n).1 = true := by
+  unfold lowerRet
+  apply endsRet_append
+  rfl
+
+def KOf (ll : Option (Name × Name)) (b : Bool) : LoopK :=
+  match ll with
+  | none => none
+  | some (lb, le) => some (lb, le, b)
+
+/-! ### Value-style claims (the flow and the next event number at the current event number) -/
+
+def CPSv (K : LoopK) (s s' : St) (p : List Flow × Nat) : Prop :=
+  ∃ seg, s'.root.context = s.root.context ++ seg ∧
+    p.2 = effCount s.root.context + effCount seg ∧
+    ∀ rest code e, Lay K (effCount s.root.context + effCount seg) rest code e →
+      Lay K (effCount s.root.context) (p.1 ++ rest) (seg ++ code) e
+
+theorem cpsv_of {K : LoopK} {s s' : St} {fl : Nat → List Flow × Nat} (h : CPS K s s' fl) :
+    CPSv K s s' (fl (effCount s.root.context)) := h
+
+theorem CPSv.eff {K : LoopK} {s s' : St} {p : List Flow × Nat} (h : CPSv K s s' p) : effCount s'.root.context = p.2 := by
+  obtain ⟨seg, h1, h2, _⟩ := h
+  rw [h1, effCount_append, h2]
+
+theorem CPSv.same {K : LoopK} {s s' : St} (h : s'.root.context = s.root.context) :
+    CPSv K s s' ([], effCount s.root.context) :=
+  ⟨[], by simp [h], by simp [effCount], fun rest code e h => by simpa [effCount] using h⟩
+
+theorem CPSv.trans {K : LoopK} {a b c : St} {p1 p2 : List Flow × Nat} (h1 : CPSv K a b p1) (h2 : CPSv K b c p2) :
+    CPSv K a c (p1.1 ++ p2.1, p2.2) := by
+  obtain ⟨seg1, c1, n1, l1⟩ := h1
+  obtain ⟨seg2, c2, n2, l2⟩ := h2
+  have hb : effCount b.root.context = effCount a.root.context + effCount seg1 := by rw [c1, effCount_append]
+  refine ⟨seg1 ++ seg2, by rw [c2, c1, List.append_assoc], ?_, ?_⟩
+  · dsimp only
+    rw [n2, hb, effCount_append]; omega
+  · intro rest code e h
+    dsimp only
+    rw [List.append_assoc, List.append_assoc]
+    apply l1
+    rw [← hb]
+    apply l2
+    rw [hb, Nat.add_assoc, ← effCount_append]
+    exact h
+
+/-- a list that leaves by a jump to `lEnd`, followed by that jump unless it ended in a return -/
+def BodyJ (K : LoopK) (s : St) (res : St × Bool) (p : List Flow × Nat) (lEnd : Name) : Prop :=
+  ∃ seg, res.1.root.context = s.root.context ++ seg ∧ p.2 = effCount s.root.context + effCount seg ∧
+    Lay K (effCount s.root.context) p.1 (seg ++ (if res.2 then [] else [Instr.jumpTo lEnd])) (.jump lEnd)
+
+theorem CPSv.thenBody {K : LoopK} {a b : St} {res : St × Bool} {p1 p2 : List Flow × Nat} {lEnd : Name}
+    (h1 : CPSv K a b p1) (h2 : BodyJ K b res p2 lEnd) : BodyJ K a res (p1.1 ++ p2.1, p2.2) lEnd := by
+  obtain ⟨seg1, c1, n1, l1⟩ := h1
+  obtain ⟨seg2, c2, n2, l2⟩ := h2
+  have hb : effCount b.root.context = effCount a.root.context + effCount seg1 := by rw [c1, effCount_append]
+  refine ⟨seg1 ++ seg2, by rw [c2, c1, List.append_assoc], ?_, ?_⟩
+  · dsimp only
+    rw [n2, hb, effCount_append]; omega
+  · dsimp only
+    rw [List.append_assoc]
+    apply l1
+    rw [← hb]
+    exact l2
+
+def PassV (K : LoopK) (s s' : St) (p : List Flow × Nat) (l0 : Name) : Prop :=
+  ∃ seg, s'.root.context = s.root.context ++ seg ∧ p.2 = effCount s.root.context + effCount seg ∧
+    Lay K (effCount s.root.context) p.1 seg (.jump l0)
+
+section control
+variable {g : Globals} {rg : RGlobals}
+
+/-- the prologue of an `if`: straight condition code, the branch, the begin label -/
+theorem prologue_shape (hg : GlobRel g rg) (hn : GNames g) (cond : IfCond) (dup isElse : Bool)
+    (le : Option Name) (s : St) (ss : SpecSt) (hr : DRel s ss)
+    (he : (ifPrologue g cond dup isElse le s).2.2.errors = s.errors) :
+    ∃ seg br lBegin,
+      (ifPrologue g cond dup isElse le s).2.2.root.context = s.root.context ++ (seg ++ [br, Instr.setLabel lBegin]) ∧
+      (∀ i ∈ seg, i.straight = true) ∧ effCount seg = cond.calls ∧
+      br.targets = [lBegin, if isElse then (ifPrologue g cond dup isElse le s).1 else (ifPrologue g cond dup isElse le s).2.1] ∧
+      br.isRet = false ∧ br.isEffect = false ∧
+      (∀ l0, le = some l0 → (ifPrologue g cond dup isElse le s).2.1 = l0) := by
+  unfold ifPrologue at he ⊢
+  dsimp only at he ⊢
+  have x0 : ∃ Δ, (if dup then s.addErr .ifElseDuplicated "if-condition".toList 1 0 else s).errors = s.errors ++ Δ := by
+    cases dup
+    · exact ⟨[], by simp⟩
+    · exact ⟨_, rfl⟩
+  have hdup : (if dup then s.addErr .ifElseDuplicated "if-condition".toList 1 0 else s).errors = s.errors →
+      (if dup then s.addErr .ifElseDuplicated "if-condition".toList 1 0 else s) = s := by
+    cases dup
+    · intro _; rfl
+    · intro h
+      have := congrArg List.length h
+      simp [St.addErr] at this
+  generalize (if dup then s.addErr .ifElseDuplicated "if-condition".toList 1 0 else s) = s0 at he x0 hdup ⊢
+  have q1 := quiet_ifLabels le s0
+  have f1 := ifLabels_fields le s0
+  have c1 := ctx_ifLabels le s0
+  have hl0 : ∀ l0, le = some l0 → (ifLabels le s0).2.2.1 = l0 := by
+    intro l0 h; subst h; unfold ifLabels; rfl
+  generalize ifLabels le s0 = p at he q1 f1 c1 hl0 ⊢
+  obtain ⟨lBegin, lElse, lEnd, s1⟩ := p
+  dsimp only at he q1 f1 c1 hl0 ⊢
+  rw [(push_fields _ _).1] at he
+  have x2 := (esteps_ifCondCalc g cond lBegin lElse lEnd isElse s1).errors_ext
+  have x1 : ∃ Δ, s1.errors = s.errors ++ Δ := by rw [f1.1]; exact x0
+  obtain ⟨e1, e2⟩ := chain2 x1 x2 he
+  have hs0 : s0 = s := hdup (by rw [← f1.1]; exact e1)
+  subst hs0
+  have r1 : DRel s1 ss.push := drel_enter hr q1 f1.2.1
+  obtain ⟨s2, br, hst, hcalc, hbr, hnr, hne, hcnt⟩ := cond_shape hg hn cond lBegin lElse lEnd isElse s1 ss.push r1 e2
+  obtain ⟨seg, hseg, hstr⟩ := esteps_seg hst
+  refine ⟨seg, br, lBegin, ?_, hstr, ?_, hbr, hnr, hne, hl0⟩
+  · rw [ctx_push, hcalc, ctx_push, hseg, c1]; simp
+  · rw [hseg, effCount_append] at hcnt; omega
+
+/-- layout of a construct that leaves by a jump to the label `l0` it was handed -/
+def PassC (K : LoopK) (s s' : St) (fl : Nat → List Flow × Nat) (l0 : Name) : Prop :=
+  ∃ seg, s'.root.context = s.root.context ++ seg ∧
+    (fl (effCount s.root.context)).2 = effCount s.root.context + effCount seg ∧
+    Lay K (effCount s.root.context) (fl (effCount s.root.context)).1 seg (.jump l0)
+
+theorem PassC.eff {K : LoopK} {s s' : St} {fl : Nat → List Flow × Nat} {l0 : Name} (h : PassC K s s' fl l0) :
+    effCount s'.root.context = (fl (effCount s.root.context)).2 := by
+  obtain ⟨seg, h1, h2, _⟩ := h
+  rw [h1, effCount_append, h2]
+
+/-- a statement (continuation-passing) in front of a body that leaves by a jump -/
+theorem CPS.thenPass {K : LoopK} {a b c : St} {f1 f2 : Nat → List Flow × Nat} {l0 : Name}
+    (h1 : CPS K a b f1) (h2 : PassC K b c f2 l0) :
+    PassC K a c (fun n => ((f1 n).1 ++ (f2 (f1 n).2).1, (f2 (f1 n).2).2)) l0 := by
+  have he := h1.eff
+  obtain ⟨seg1, c1, n1, l1⟩ := h1
+  obtain ⟨seg2, c2, n2, l2⟩ := h2
+  have hb : effCount b.root.context = effCount a.root.context + effCount seg1 := by rw [c1, effCount_append]
+  refine ⟨seg1 ++ seg2, by rw [c2, c1, List.append_assoc], ?_, ?_⟩
+  · dsimp only
+    rw [← he, n2, hb, effCount_append]; omega
+  · dsimp only
+    apply l1
+    rw [← hb, ← he]
+    exact l2
+
+theorem PassC.dead {K : LoopK} {a b c : St} {fl : Nat → List Flow × Nat} {l0 : Name} (d : List Instr)
+    (h : PassC K a b fl l0) (hc : c.root.context = b.root.context ++ d) (hd : effCount d = 0) : PassC K a c fl l0 := by
+  obtain ⟨seg, c1, n1, l1⟩ := h
+  refine ⟨seg ++ d, by rw [hc, c1, List.append_assoc], by rw [effCount_append, hd, n1]; rfl, Lay.dead d l1⟩
+
+end control
+
+/-! ### `loop_statement` -/
+
+theorem lay_loopWrap (k : Name → Name → Bool → Bool → Bool → St → St × Bool) (F : SpecSt → SpecSt)
+    (bf : Nat → List Flow × Nat) (ret brk : Bool) (K : LoopK)
+    (hx : ∀ lb le rc bc cc s, Steps s (k lb le rc bc cc s).1)
+    (hk : ∀ lb le s ss, DRel s ss → (k lb le false false false s).1.errors = s.errors →
+      DRel (k lb le false false false s).1 (F ss) ∧ (k lb le false false false s).1.inner.length = s.inner.length)
+    (hlay : ∀ lb le b s ss, DRel s ss → (k lb le false false false s).1.errors = s.errors → (brk = true → b = true) →
+      CPSv (some (lb, le, b)) s (k lb le false false false s).1 (bf (effCount s.root.context)) ∧
+      ((k lb le false false false s).2 = true → endsRet (bf (effCount s.root.context)).1 = true))
+    (hret : ∀ lb le s, (k lb le false false false s).2 = true → ret = true)
+    (hf3 : (ret && brk) = false)
+    (s : St) (ss : SpecSt) (hr : DRel s ss) (he : (loopWrap k s).errors = s.errors) :
+    CPSv K s (loopWrap k s) ([Flow.loop (bf (effCount s.root.context)).1], (bf (effCount s.root.context)).2) := by
+  unfold loopWrap at he ⊢
+  dsimp only at he ⊢
+  have q1 := quiet_loopPrologue s
+  have f1 := loopPrologue_fields s
+  have c1 := ctx_loopPrologue s
+  generalize loopPrologue s = p at he q1 f1 c1 ⊢
+  obtain ⟨lb, le, s1⟩ := p
+  dsimp only at he q1 f1 c1 ⊢
+  have x2 := (hx lb le false false false s1).errors_ext
+  have h2 := hk lb le s1 ss.push (drel_enter hr q1 f1.2.1)
+  have hl := fun b => hlay lb le b s1 ss.push (drel_enter hr q1 f1.2.1)
+  have hrt := hret lb le s1
+  generalize k lb le false false false s1 = q at he x2 h2 hl hrt ⊢
+  obtain ⟨s2, r⟩ := q
+  dsimp only at he x2 h2 hl hrt ⊢
+  have e2 : s2.errors = s1.errors := by
+    have hin : s2.errors.length ≤ s1.errors.length := by
+      have := congrArg List.length he
+      rw [f1.1]
+      obtain ⟨Δ, hΔ⟩ := x2
+      by_cases hne : s2.inner ≠ []
+      · rw [(loopEpilogue_fields r lb le s2 hne).1] at this; omega
+      · have : (loopEpilogue r lb le s2).errors = s2.errors := (quiet_loopEpilogue r lb le s2).errors
+        rw [this] at he; rw [he]; omega
+    exact eq_of_ext_len x2 hin
+  have hn1 : effCount s1.root.context = effCount s.root.context := by
+    rw [c1, effCount_append]; simp [effCount, Instr.isEffect]
+  -- the flag that is available for `break`
+  have hb : brk = true → (!r) = true := by
+    intro hbk
+    cases r with
+    | false => rfl
+    | true => rw [hrt rfl, hbk] at hf3; cases hf3
+  obtain ⟨⟨bc, cb, nb, lbody⟩, hends⟩ := hl (!r) e2 hb
+  rw [hn1] at nb lbody hends
+  have hbody : Lay (some (lb, le, !r)) (effCount s.root.context) (bf (effCount s.root.context)).1 bc .fall := by
+    have := lbody [] [] .fall (Lay.nil _ _)
+    simpa using this
+  have ctail := ctx_loopEpilogue r lb le s2
+  refine ⟨Instr.jumpTo lb :: Instr.setLabel lb :: (bc ++ (if r then [] else [Instr.jumpTo lb, Instr.setLabel le])), ?_, ?_, ?_⟩
+  · rw [ctail, cb, c1]; simp
+  · dsimp only
+    rw [nb, effCount_cons, effCount_cons, effCount_append]
+    cases r <;> simp [effCount, Instr.isEffect]
+  · intro rest code e hrest
+    dsimp only
+    have htail : (if r then [] else [Instr.jumpTo lb, Instr.setLabel le]) = [Instr.jumpTo lb, Instr.setLabel le] ∨
+        ((if r then [] else [Instr.jumpTo lb, Instr.setLabel le]) = [] ∧
+          endsRet (bf (effCount s.root.context)).1 = true ∧ (!r) = false) := by
+      cases r with
+      | false => left; rfl
+      | true => right; exact ⟨rfl, hends rfl, rfl⟩
+    have hcount : effCount (Instr.jumpTo lb :: Instr.setLabel lb :: (bc ++ (if r then [] else [Instr.jumpTo lb, Instr.setLabel le]))) =
+        effCount bc := by
+      rw [effCount_cons, effCount_cons, effCount_append]
+      cases r <;> simp [effCount, Instr.isEffect]
+    rw [hcount] at hrest
+    have := Lay.loop (K := K) (rest := rest) (c := code) (e := e) lb le (!r) hbody htail hrest
+    simpa using this
+
 end SemVerif
